@@ -11,3 +11,6 @@ import CnbVerif.Props.C13
 #print axioms CnbVerif.C13.edges_are_the_declared_dependencies
 #print axioms CnbVerif.C13.judge_accepts_model
 #print axioms CnbVerif.C13.judge_iff_spec
+#print axioms CnbVerif.C13.packaging_order
+#print axioms CnbVerif.C13.packaging_missing_dependency_is_error
+#print axioms CnbVerif.C13.packaging_roots_known
